@@ -235,12 +235,16 @@ func init() {
 				return nil, err
 			}
 			if i == 0 {
-				return nil, raise("ZERO_ARRAY_OR_TUPLE_INDEX", "array indices are 1-based")
+				// a constant index 0 is rejected ("Array indices are 1-based"); a computed index that happens
+				// to be 0 (x[length(x)] of an empty array — rule A15) reads as the default value.
+				if _, isConst := stripAlias(c.f.Args[1]).(*Literal); isConst {
+					return nil, raise("ZERO_ARRAY_OR_TUPLE_INDEX", "array indices are 1-based")
+				}
 			}
 			if i < 0 {
 				i = int64(len(a)) + i + 1
 			}
-			if i < 1 || i > int64(len(a)) {
+			if i < 1 || i > int64(len(a)) || args[1] == nil {
 				var sample Value
 				if len(a) > 0 {
 					sample = a[0]
